@@ -124,6 +124,11 @@ func runC09(ctx *Ctx) error {
 		(&knode{Key: "STRM", Typ: 0, Kids: []*knode{{Key: "TYPE", Typ: 'c', Size: 1, Count: 9, Data: []byte("BBSSSSSBB")}, {Key: "FACE", Typ: '?', Size: 14, Count: 3, Data: make([]byte, 42)}}}).encode(),
 		(&knode{Key: "STRM", Typ: 0, Kids: []*knode{{Key: "TYPE", Typ: 'c', Size: 1, Count: 5, Data: []byte("Lffff")}, {Key: "FACE", Typ: '?', Size: 19, Count: 1, Data: make([]byte, 19)}}}).encode(),
 		(&knode{Key: "GPS5", Typ: 'l', Size: 20, Count: 0}).encode(),
+		// scale vectors whose payload is shorter than one value of their type, then a numeric sibling
+		(&knode{Key: "STRM", Typ: 0, Kids: []*knode{{Key: "SCAL", Typ: 'l', Size: 2, Count: 1, Data: []byte{0, 1}}, {Key: "ACCL", Typ: 's', Size: 2, Count: 3, Data: []byte{0, 1, 0, 2, 0, 3}}}}).encode(),
+		(&knode{Key: "STRM", Typ: 0, Kids: []*knode{{Key: "SCAL", Typ: 's', Size: 1, Count: 1, Data: []byte{7}}, {Key: "GYRO", Typ: 's', Size: 6, Count: 1, Data: []byte{0, 1, 0, 2, 0, 3}}}}).encode(),
+		(&knode{Key: "STRM", Typ: 0, Kids: []*knode{{Key: "SCAL", Typ: 'd', Size: 7, Count: 1, Data: []byte{1, 2, 3, 4, 5, 6, 7}}, {Key: "ABCD", Typ: 'L', Size: 4, Count: 1, Data: []byte{0, 0, 0, 9}}}}).encode(),
+		(&knode{Key: "STRM", Typ: 0, Kids: []*knode{{Key: "SCAL", Typ: 'f', Size: 3, Count: 1, Data: []byte{1, 2, 3}}, {Key: "GPS5", Typ: 'l', Size: 20, Count: 1, Data: make([]byte, 20)}}}).encode(),
 		// a sensor element whose stream states nothing while its device does
 		(&knode{Key: "DEVC", Typ: 0, Kids: []*knode{{Key: "DVNM", Typ: 'c', Size: 1, Count: 3, Data: []byte("Cam")},
 			{Key: "STRM", Typ: 0, Kids: []*knode{{Key: "ACCL", Typ: 's', Size: 6, Count: 1, Data: []byte{0, 1, 0, 2, 0, 3}}}}}}).encode(),
@@ -182,6 +187,10 @@ func runC09(ctx *Ctx) error {
 			addGpmfCase(ctx, gpmfInput{hex.EncodeToString(b), 0, kind})
 		case 4, 5:
 			d := &knode{Key: "DEVC", Typ: 0, Kids: []*knode{genStream(r)}}
+			if r.Chance(0.2) {
+				// as is: rare shapes (undersized scale vectors, odd sample counts, wrong types) unmutated
+				addGpmfCase(ctx, gpmfInput{hex.EncodeToString(d.encode()), 0, "stream"})
+			}
 			b := mutateBytes(r, d.encode())
 			if r.Chance(0.3) {
 				b = mutateBytes(r, b)
